@@ -81,7 +81,7 @@ func slots() [][]*D {
 		{lf("i8", "-128"), lf("i8", "0"), lf("i8", "127")},
 		{lf("u64", "0"), lf("u64", "18446744073709551615"), lf("u64", "9007199254740993")},
 		{lf("i64", "-9223372036854775808"), lf("i64", "9223372036854775807"), lf("i64", "-1")},
-		{lf("d", "1.50"), lf("d", "-0.01"), lf("d", "92233720368547758.07"), lf("d", "3")},
+		{lf("d", "1.50"), lf("d", "-0.01"), lf("d", "92233720368547758.07"), lf("d", "3"), lf("d", "-92233720368547758.08"), lf("d", "-92233720368547758.00")},
 		{lf("b", "true"), lf("b", "false")},
 		{lf("e", "")},
 		{lf("s", ""), lf("s", "a"), lf("s", "q\"\\<&é\n\t>"), lf("s", " lead and trail "), lf("s", "C:\\temp\\new"), lf("s", "a\\u0041b\\.\\s"), lf("s", "/"), lf("s", "\x7f"), lf("s", "<!--x-->]]>")},
